@@ -2,6 +2,7 @@ package chainsim
 
 import (
 	"bytes"
+	"crypto/sha256"
 	"encoding/hex"
 	"encoding/json"
 	"fmt"
@@ -600,6 +601,14 @@ func (s *scn) applyIBTP(st CStep) {
 		ib.Type = pb.IBTP_INTERCHAIN
 		ib.Index = s.ibtp.pickIndex(pm.reqSubmitted(), st.Idx)
 		sender = p.src.chain.admin
+		if st.Notice > 0 {
+			// a request between two services of THIS hub dressed up as the notice of another BitXHub (only such a notice
+			// may skip the request index check): it is an ordinary request and is judged by its index like one
+			bp := &pb.BxhProof{TxStatus: []pb.TransactionStatus{pb.TransactionStatus_BEGIN_FAILURE, pb.TransactionStatus_BEGIN_ROLLBACK}[(st.Notice-1)%2]}
+			ib.Extra, _ = bp.Marshal()
+			ib.Index = s.ibtp.pickIndex(pm.rcptSubmitted(), st.Idx)
+			s.res.Count("local_request_dressed_as_hub_notice")
+		}
 	default:
 		switch st.Kind {
 		case "ok":
@@ -649,6 +658,9 @@ func (s *scn) applyIBTP(st CStep) {
 	m := &txMeta{kind: "ibtp", ibtp: ib, sender: sender, proofOK: ruleAccepts(judge.rule, proof), note: st.Kind + "/" + st.Idx, judge: judge}
 	if !m.proofOK {
 		m.note += "/proof-refused-by-" + judge.rule + "-rule"
+	}
+	if st.Notice > 0 && st.Kind == "req" {
+		m.note += "/dressed-as-notice"
 	}
 	if st.Op == "entry" {
 		// plain contract invocation by an external account: no proof is ever checked on this path
@@ -703,6 +715,17 @@ func (s *scn) flush() *blockResult {
 	for i, tx := range s.pend {
 		blk.Transactions.Transactions = append(blk.Transactions.Transactions, blockTx(tx, s.pendM[i]))
 		ll = append(ll, s.pendM[i].local)
+	}
+	if s.prop == "C09" && !s.inSetup && sim.NewRand(uint64(h)*0x9fb21c651e98df25+uint64(len(s.pend))).Chance(0.2) {
+		// a block that arrives with a header some other node filled in on another fork (a peer serving block sync that had
+		// executed a competing block below): parent hash and roots that are not this node's
+		fh := func(tag string) *types.Hash {
+			d := sha256.Sum256([]byte(fmt.Sprintf("%s-%d", tag, h)))
+			return types.NewHash(d[:])
+		}
+		blk.BlockHeader.ParentHash, blk.BlockHeader.StateRoot = fh("foreign-parent"), fh("foreign-state")
+		blk.BlockHeader.TxRoot, blk.BlockHeader.ReceiptRoot = fh("foreign-txroot"), fh("foreign-receiptroot")
+		s.res.Count("fault_block_delivered_with_a_foreign_header")
 	}
 	ev := &pb.CommitEvent{Block: blk, LocalList: ll}
 	txs, metas := s.pend, s.pendM
